@@ -117,6 +117,34 @@ fn gen_pinned_witness_program(cx: &mut Case) -> super::c01::Generated {
         let mut it = parts.into_iter().rev();
         let last = it.next().unwrap();
         it.fold(last, |acc, p| RTy::prod(p, acc))
+    } else if src.bool() {
+        // a sum whose arms have the same width, one of them with padding inside and the other a
+        // plain product of words (the compact and padded encodings of such a sum differ only
+        // inside one arm), optionally next to other data
+        let mut a = crate::gen::types::gen_ty(&mut src, 60, 5);
+        for _ in 0..8 {
+            if a.has_padding() {
+                break;
+            }
+            a = RTy::sum(RTy::unit(), a);
+        }
+        let w = a.width;
+        let mut parts = vec![];
+        for k in 0..11 {
+            if (w >> k) & 1 == 1 {
+                parts.push(RTy::word(k));
+            }
+        }
+        let b = match parts.pop() {
+            None => RTy::unit(),
+            Some(last) => parts.into_iter().rev().fold(last, |acc, p| RTy::prod(p, acc)),
+        };
+        let s = if src.bool() { RTy::sum(a, b) } else { RTy::sum(b, a) };
+        match src.below(3) {
+            0 => s,
+            1 => RTy::prod(s, RTy::word(3)),
+            _ => RTy::prod(RTy::word(1), s),
+        }
     } else {
         let wmax = [40usize, 300, 1300][src.below(3)];
         crate::gen::types::gen_ty(&mut src, wmax, 6)
